@@ -86,7 +86,8 @@ impl util::BitVec
         let mut result = String::new();
 
         let line_start = 0 / (byte_bits * bytes_per_line);
-        let line_end = (self.len() + (bytes_per_line - 1) * byte_bits) / (byte_bits * bytes_per_line);
+        let line_bits = byte_bits * bytes_per_line;
+        let line_end = self.len() / line_bits + if self.len() % line_bits == 0 { 0 } else { 1 };
 
         let line_end = if self.len() < byte_bits { line_start + 1 } else { line_end };
 
